@@ -123,6 +123,11 @@ func run(sc scenario, choose vs.Chooser, traceOn bool) (*trace, *vs.Sched) {
 				} else {
 					vs.WaitDone(ctx)
 				}
+			} else if p.Kind == "ok-ignoring-deadline" {
+				// a DialFunc that does not watch its context: the connection is established after D whatever happened meanwhile
+				// (possibly after the per-attempt timeout): it must end up returned or closed, never dropped
+				vs.Sleep(time.Duration(p.D) * unit)
+				full = true
 			} else if p.Kind == "hang" {
 				vs.WaitDone(ctx)
 			} else if p.Kind == "ok-slow-to-abort" {
@@ -139,7 +144,7 @@ func run(sc scenario, choose vs.Chooser, traceOn bool) (*trace, *vs.Sched) {
 				a.result = "cancelled"
 				return nil, ctx.Err()
 			}
-			if p.Kind == "ok" || p.Kind == "ok-slow-to-abort" {
+			if p.Kind == "ok" || p.Kind == "ok-slow-to-abort" || p.Kind == "ok-ignoring-deadline" {
 				a.result = "ok"
 				a.conn = &fakeConn{id: ti}
 				return a.conn, nil
@@ -247,7 +252,7 @@ func monitor(sc scenario, tr *trace, s *vs.Sched) (key, what string) {
 			if e.a.result == "fail" || e.a.result == "cancelled" {
 				failures++ // (an ECH rejection that is retried is not reported as a failure)
 			}
-			if e.a.end-e.a.start > timeout && sc.Plans[max(e.a.target, 0)].Kind != "ok-slow-to-abort" {
+			if k := sc.Plans[max(e.a.target, 0)].Kind; e.a.end-e.a.start > timeout && k != "ok-slow-to-abort" && k != "ok-ignoring-deadline" {
 				return "attempt-timeout", fmt.Sprintf("attempt for target %d ran %v, Timeout is %v", e.a.target, e.a.end-e.a.start, timeout)
 			}
 		case "return":
@@ -263,7 +268,7 @@ func monitor(sc scenario, tr *trace, s *vs.Sched) (key, what string) {
 		lastEnd[a.target] = max(lastEnd[a.target], a.end)
 	}
 	for t, st := range firstStart {
-		if t >= 0 && lastEnd[t]-st > timeout && sc.Plans[t].Kind != "ok-slow-to-abort" {
+		if t >= 0 && lastEnd[t]-st > timeout && sc.Plans[t].Kind != "ok-slow-to-abort" && sc.Plans[t].Kind != "ok-ignoring-deadline" {
 			return "target-timeout", fmt.Sprintf("the attempt for target %d (with its ECH retry) occupied its slot from %v to %v, Timeout is %v", t, st, lastEnd[t], timeout)
 		}
 	}
@@ -318,7 +323,7 @@ func monitor(sc scenario, tr *trace, s *vs.Sched) (key, what string) {
 		// failure: legitimate only if cancelled, or nothing could succeed
 		if !cancelledFirst {
 			for i, p := range sc.Plans {
-				if (p.Kind == "ok" || p.Kind == "ok-slow-to-abort") && p.D < sc.Timeout {
+				if (p.Kind == "ok" || p.Kind == "ok-slow-to-abort" || p.Kind == "ok-ignoring-deadline") && p.D < sc.Timeout {
 					_ = i
 					return "error-despite-success", fmt.Sprintf("Dial failed with %v although target %d succeeds", tr.retErr, i)
 				}
@@ -372,7 +377,7 @@ func allDoneBefore(tr *trace, at time.Duration) bool { return tr.retAt <= at }
 
 // ---- scenarios and exploration ----
 
-var planDomain = []plan{{"ok", 0}, {"ok", 1}, {"ok", 3}, {"fail", 0}, {"fail", 1}, {"fail", 3}, {"hang", 0}, {"resolve-error", 0}, {"ok-slow-to-abort", 3}, {"reject-then-hang", 1}}
+var planDomain = []plan{{"ok", 0}, {"ok", 1}, {"ok", 3}, {"fail", 0}, {"fail", 1}, {"fail", 3}, {"hang", 0}, {"resolve-error", 0}, {"ok-slow-to-abort", 3}, {"reject-then-hang", 1}, {"ok-ignoring-deadline", 3}}
 
 func scenarios(thorough bool) []scenario {
 	var out []scenario
